@@ -556,15 +556,15 @@ class CDSInterval(AbstractFeatureInterval):
         full codons.
         """
 
-        if chromosome_start < self.chromosome_location.start:
-            chromosome_start = self.start
-        if chromosome_end > self.chromosome_location.end:
-            chromosome_end = self.end
-        cds_interval = self.sequence_interval_to_cds(chromosome_start, chromosome_end, Strand.PLUS)
-        adjusted_cds_start = cds_interval.start - (cds_interval.start % 3)
-        adjusted_cds_end = cds_interval.end - (cds_interval.end % -3)
-        chromosome_interval = self.cds_interval_to_sequence(adjusted_cds_start, adjusted_cds_end, Strand.PLUS)
-        return chromosome_interval.start, chromosome_interval.end
+        # the codons of this CDS (frame offsets and incomplete codons taken into account) that have a base in the window
+        touched = [
+            codon
+            for codon in self.chromosome_codon_locations
+            if any(block.start < chromosome_end and block.end > chromosome_start for block in codon.blocks)
+        ]
+        if not touched:
+            return chromosome_start, chromosome_start
+        return min(codon.start for codon in touched), max(codon.end for codon in touched)
 
     def scan_chunk_relative_codon_locations(
         self,
